@@ -14,6 +14,9 @@ Section Rodrigues.
   Local Notation "0" := (n0 O).
   Local Notation "1" := (n1 O).
 
+  Definition rod_m1 : F := nneg O (n1 O).
+  Local Notation "'m1'" := rod_m1.
+
   (* ---------- small 3x3 helpers (not in Mat.v) ---------- *)
   Definition m3add (a b : mat3 F) : mat3 F :=
     M3 (a00 a + a00 b) (a01 a + a01 b) (a02 a + a02 b)
@@ -49,4 +52,197 @@ Section Rodrigues.
     let theta := rod_theta r in
     if nltb O theta rod_eps then I3 O
     else rod_matrix (ncos O theta) (nsin O theta) (rod_axis r).
+
+  (* ---------- forward Jacobian: the (3,9) array, row i kept as the 3x3 matrix jac[i].reshape(3,3) ---------- *)
+  (* drrt rows *)
+  Definition rod_drrt (k : vec3 F) (i : nat) : mat3 F :=
+    match i with
+    | 0%nat => M3 (vx k + vx k) (vy k) (vz k)  (vy k) 0 0  (vz k) 0 0
+    | 1%nat => M3 0 (vx k) 0  (vx k) (vy k + vy k) (vz k)  0 (vz k) 0
+    | _     => M3 0 0 (vx k)  0 0 (vy k)  (vx k) (vy k) (vz k + vz k)
+    end.
+  (* d_r_x_ rows *)
+  Definition rod_dskew (i : nat) : mat3 F :=
+    match i with
+    | 0%nat => M3 0 0 0  0 0 m1  0 1 0
+    | 1%nat => M3 0 0 1  0 0 0  m1 0 0
+    | _     => M3 0 m1 0  1 0 0  0 0 0
+    end.
+  (* a0*I_jac + a1*rrt + a2*drrt + a3*_r_x_ + a4*d_r_x_, row i *)
+  Definition rod_jac_row (c s itheta : F) (k : vec3 F) (i : nat) : mat3 F :=
+    let c1 := 1 - c in
+    let ki := vget k i in
+    let a0 := (- s) * ki in
+    let a1 := (s - n2 O * c1 * itheta) * ki in
+    let a2 := 1 * c1 * itheta in
+    let a3 := (c - s * itheta) * ki in
+    let a4 := 1 * s * itheta in
+    m3add (m3add (m3add (m3add (m3scale a0 (I3 O)) (m3scale a1 (m3outer k))) (m3scale a2 (rod_drrt k i)))
+                 (m3scale a3 (m3skew k))) (m3scale a4 (rod_dskew i)).
+  Definition rodrigues_fwd_jac (r : vec3 F) : list (mat3 F) :=
+    let theta := rod_theta r in
+    if nltb O theta rod_eps then [rod_dskew 0; rod_dskew 1; rod_dskew 2]
+    else
+      let c := ncos O theta in let s := nsin O theta in let k := rod_axis r in
+      [rod_jac_row c s (1 / theta) k 0; rod_jac_row c s (1 / theta) k 1; rod_jac_row c s (1 / theta) k 2].
+  Definition jac39_flat (j : list (mat3 F)) : list F := flat_map (m3list) j.
+
+  (* ---------- inverse map ---------- *)
+  Section Inverse.
+    (* u, _, v = np.linalg.svd(r); r = np.dot(u, v): LAPACK is not modelled; it is a function argument whose
+       contract (it returns its input when the input is already orthogonal) is a hypothesis of the theorems. *)
+    Context (proj : mat3 F -> mat3 F).
+
+    Definition rod_half : F := nfrac O 1 2.
+    (* the binary64 literal 1e-5 *)
+    Definition rod_small : F := nfrac O 5902958103587057 590295810358705651712.
+    (* np.clip(x, lo, hi) = minimum(maximum(x, lo), hi) *)
+    Definition nclip (x lo hi : F) : F := nmin O (nmax O x lo) hi.
+
+    Definition rod_antisym (p : mat3 F) : vec3 F :=
+      V3 (a21 p - a12 p) (a02 p - a20 p) (a10 p - a01 p).
+    Definition rod_inv_s (p : mat3 F) : F := vnorm O (rod_antisym p) * rod_half.
+    Definition rod_inv_c (p : mat3 F) : F :=
+      nclip ((a00 p + a11 p + a22 p - 1) * rod_half) m1 1.
+    Definition rod_inv_theta (p : mat3 F) : F := nacos O (rod_inv_c p).
+
+    (* half-turn branch: axis from the diagonal with the three sign fix-ups.
+       (fixed code: sqrt(clip((diag+1)/2, 0, inf)); fixes/C10-halfturn-sqrt-clip.diff) *)
+    Definition rod_diag_root (d : F) : F := nsqrt O (nmax O ((d + 1) * rod_half) 0).
+    Definition rod_half_axis (p : mat3 F) : vec3 F :=
+      let rx := rod_diag_root (a00 p) in
+      let ry0 := rod_diag_root (a11 p) in
+      let rz0 := rod_diag_root (a22 p) in
+      let ry := if nltb O (a01 p) 0 then - ry0 else ry0 in
+      let rz1 := if nltb O (a02 p) 0 then - rz0 else rz0 in
+      let rz :=
+        if andb (nltb O (nabs O rx) (nabs O ry))
+             (andb (nltb O (nabs O rx) (nabs O rz1))
+                   (negb (Bool.eqb (nltb O 0 (a12 p)) (nltb O 0 (ry * rz1)))))
+        then - rz1 else rz1 in
+      V3 rx ry rz.
+
+    (* None = the code would divide by a zero norm (NaN); cannot happen for an orthogonal projection *)
+    Definition rodrigues_inv_of_proj (p : mat3 F) : option (vec3 F) :=
+      let s := rod_inv_s p in
+      let c := rod_inv_c p in
+      let theta := rod_inv_theta p in
+      if nltb O s rod_small then
+        if nltb O 0 c then Some (vzero O)
+        else
+          let v := rod_half_axis p in
+          let n := vnorm O v in
+          if neqb O n 0 then None else Some (vscale O (theta / n) v)
+      else
+        Some (vscale O ((1 / (n2 O * s)) * theta) (rod_antisym p)).
+    Definition rodrigues_inv (m : mat3 F) : option (vec3 F) := rodrigues_inv_of_proj (proj m).
+
+    (* ---------- inverse Jacobian: the (9,3) array as 9 rows of 3 ---------- *)
+    Definition ldot (u v : list F) : F := nsum O (map2 (nmul O) u v).
+    (* a @ b with b given by its columns *)
+    Definition lmatmul_cols (a bcols : list (list F)) : list (list F) :=
+      map (fun row => map (fun col => ldot row col) bcols) a.
+    Fixpoint lcols3 (r0 r1 r2 : list F) : list (list F) :=
+      match r0, r1, r2 with
+      | x :: r0', y :: r1', z :: r2' => [x; y; z] :: lcols3 r0' r1' r2'
+      | _, _, _ => []
+      end.
+    Fixpoint lcols4 (r0 r1 r2 r3 : list F) : list (list F) :=
+      match r0, r1, r2, r3 with
+      | x :: r0', y :: r1', z :: r2', w :: r3' => [x; y; z; w] :: lcols4 r0' r1' r2' r3'
+      | _, _, _, _ => []
+      end.
+    Fixpoint lcols5 (r0 r1 r2 r3 r4 : list F) : list (list F) :=
+      match r0, r1, r2, r3, r4 with
+      | x :: r0', y :: r1', z :: r2', w :: r3', u :: r4' => [x; y; z; w; u] :: lcols5 r0' r1' r2' r3' r4'
+      | _, _, _, _, _ => []
+      end.
+    (* jac[ii].reshape((3, 3)).T.flatten() *)
+    Definition row_T33 (r : list F) : list F :=
+      match r with
+      | [e0; e1; e2; e3; e4; e5; e6; e7; e8] => [e0; e3; e6; e1; e4; e7; e2; e5; e8]
+      | _ => r
+      end.
+    Definition zeros93 : list (list F) := repeat [0; 0; 0] 9.
+
+    Definition rodrigues_inv_jac_of_proj (p : mat3 F) : list (list F) :=
+      let s := rod_inv_s p in
+      let c := rod_inv_c p in
+      let theta := rod_inv_theta p in
+      let w := rod_antisym p in
+      let h := rod_half in
+      if nltb O s rod_small then
+        if nltb O 0 c then
+          (* jac[1,2] = jac[5,0] = jac[6,1] = -0.5 ; jac[2,1] = jac[3,2] = jac[7,0] = 0.5 *)
+          [[0; 0; 0]; [0; 0; - h]; [0; h; 0];
+           [0; 0; h]; [0; 0; 0]; [- h; 0; 0];
+           [0; - h; 0]; [h; 0; 0]; [0; 0; 0]]
+        else zeros93
+      else
+        let vth := 1 / (n2 O * s) in
+        let dtheta_dtr := m1 / s in
+        let dvth_dtheta := (- vth) * c / s in
+        let d1 := h * dvth_dtheta * dtheta_dtr in
+        let d2 := h * dtheta_dtr in
+        let dvardR :=
+          [[0; 0; 0; 0; 0; 1; 0; m1; 0];
+           [0; 0; m1; 0; 0; 0; 1; 0; 0];
+           [0; 1; 0; m1; 0; 0; 0; 0; 0];
+           [d1; 0; 0; 0; d1; 0; 0; 0; d1];
+           [d2; 0; 0; 0; d2; 0; 0; 0; d2]] in
+        let dvar2dvar :=
+          [[vth; 0; 0; vx w; 0];
+           [0; vth; 0; vy w; 0];
+           [0; 0; vth; vz w; 0];
+           [0; 0; 0; 0; 1]] in
+        let domegadvar2 :=
+          [[theta; 0; 0; vx w * vth];
+           [0; theta; 0; vy w * vth];
+           [0; 0; theta; vz w * vth]] in
+        let ab := lmatmul_cols domegadvar2
+                    (match dvar2dvar with [b0; b1; b2; b3] => lcols4 b0 b1 b2 b3 | _ => [] end) in
+        let abc := lmatmul_cols ab
+                    (match dvardR with [c0; c1; c2; c3; c4] => lcols5 c0 c1 c2 c3 c4 | _ => [] end) in
+        match map row_T33 abc with
+        | [j0; j1; j2] => lcols3 j0 j1 j2
+        | _ => []
+        end.
+    Definition rodrigues_inv_jac (m : mat3 F) : list (list F) := rodrigues_inv_jac_of_proj (proj m).
+  End Inverse.
+
+  (* ---------- entry points on arrays of any shape ---------- *)
+  Record ndarr := MkNd { nd_shape : list nat; nd_data : list F }.
+  Definition nd_size (a : ndarr) : nat := fold_right Nat.mul 1%nat (nd_shape a).
+  Definition shape_eqb (s t : list nat) : bool :=
+    if list_eq_dec Nat.eq_dec s t then true else false.
+
+  Inductive rod_out :=
+  | OutMat (m : mat3 F) (jac : option (list (mat3 F)))            (* (3,3) and the (3,9) Jacobian *)
+  | OutVec (v : option (vec3 F)) (jac : option (list (list F))).  (* (3,1) (None = NaN) and the (9,3) Jacobian *)
+
+  (* rodrigues_vector_to_rotation_matrix: flatten, then vg.shape.check_value(r, (3,)) *)
+  Definition r2m_entry (a : ndarr) (jac : bool) : result rod_out :=
+    match nd_data a with
+    | [x; y; z] =>
+        let r := V3 x y z in
+        Ok (OutMat (rodrigues_fwd r) (if jac then Some (rodrigues_fwd_jac r) else None))
+    | _ => Raise ValueError
+    end.
+  (* rotation_matrix_to_rodrigues_vector: vg.shape.check_value(r, (3, 3)) *)
+  Definition m2r_entry (proj : mat3 F -> mat3 F) (a : ndarr) (jac : bool) : result rod_out :=
+    if shape_eqb (nd_shape a) [3%nat; 3%nat] then
+      match nd_data a with
+      | [x0; x1; x2; x3; x4; x5; x6; x7; x8] =>
+          let m := M3 x0 x1 x2 x3 x4 x5 x6 x7 x8 in
+          Ok (OutVec (rodrigues_inv proj m) (if jac then Some (rodrigues_inv_jac proj m) else None))
+      | _ => Raise ValueError
+      end
+    else Raise ValueError.
+  (* cv2_rodrigues: r.size == 3 -> forward; r.shape == (3,3) -> inverse; else ValueError *)
+  Definition cv2_rodrigues (proj : mat3 F -> mat3 F) (a : ndarr) (jac : bool) : result rod_out :=
+    if Nat.eqb (nd_size a) 3 then r2m_entry a jac
+    else if shape_eqb (nd_shape a) [3%nat; 3%nat] then m2r_entry proj a jac
+    else Raise ValueError.
 End Rodrigues.
+Arguments MkNd {F}. Arguments nd_shape {F}. Arguments nd_data {F}.
+Arguments OutMat {F}. Arguments OutVec {F}.
